@@ -397,7 +397,11 @@ func (w *World) Trust(n *Node, addr string, on bool) {
 	if on {
 		n.ab.AddTrustedNode(addr)
 		w.trusted[n.id][addr] = true
-		w.everTrusted[n.id] = true
+		for _, m := range w.nodes {
+			if m.addr == addr { // only an address that seals vertices can put the exemption to use
+				w.everTrusted[n.id] = true
+			}
+		}
 	} else {
 		n.ab.RemoveTrustedNode(addr)
 		delete(w.trusted[n.id], addr)
